@@ -63,6 +63,9 @@ func c08AnchoredDoc(r *rand.Rand) string {
 	fmt.Fprintf(&sb, "flowseq: [{v: 1, w: %s}, {v: 2}]\nflowmap: {name: web, port: %s}\n", sc(), sc())
 	// scalars that carry a tag of the user's own
 	sb.WriteString("sec: !secret hunter2\nenvs:\n  - !env HOME\n  - !env PATH\n  - plain\n")
+	// maps without any anchor or alias whose keys are not strings / that merge an inline map: the encoders rewrite
+	// keys and resolve merges on what they are given
+	fmt.Fprintf(&sb, "ports:\n  80: http\n  443: %s\n  true: yes\n  2.5: half\ninl:\n  <<: {a: 1, b: %s}\n  b: 2\n", sc(), sc())
 	if useCPU {
 		sb.WriteString("elsewhere: *cpu\n")
 	}
@@ -96,6 +99,10 @@ var c08AnchorPool = []string{
 	`to_json`, `@json`, `.items | to_json`, `.service | @json`, `.service | to_json`, `.service | to_props`, `.service | to_xml`, `.refsmap | to_json`, `.refsmap.web | @json`,
 	`[.service, .refsmap] | sort_by(to_json)`, `select(.service | to_props | test("cpu"))`, `to_yaml`, `.service | to_yaml`, `to_props`, `.service | to_props`, `.items | @json`, `to_xml`,
 	`.refs | @json`, `.items[] | to_json`, `.use | to_json`, `tojson`, `.service | to_entries`, `.service | with_entries(.)`, `.service | keys`, `.service | length`,
+	// encoders over anchor-free maps with non-string keys / an inline merge
+	`.ports | to_props`, `.ports | @props`, `.ports | to_json`, `.ports | to_xml`, `.ports | to_yaml`, `.ports | select(@props | test("https"))`, `[.ports, .flowmap] | sort_by(to_props)`,
+	`.inl | to_json`, `.inl | @json`, `.inl | to_props`, `.inl | to_xml`, `.inl | @yaml`, `.inl | select(to_json | test("a"))`, `[.inl, .ports] | map(to_json)`, `.ports | keys`, `.inl | keys`, `.inl.a`,
+	`.ports | to_entries`, `.ports | with_entries(.)`, `.inl | to_entries`,
 	// entries: values that are aliases, entries without a value
 	`.refsmap | with_entries({"key": .key, "value": .value.zz_missing})`, `.refsmap | with_entries(select(.value.zz_missing == null))`, `.refsmap | with_entries(.value |= .zz_missing)`,
 	`.refsmap | to_entries | map(.value.zz_missing)`, `.refsmap | with_entries(.value = (.value.a // .value.retries))`, `.refsmap | map_values_ro`, `.refsmap | with_entries(.)`,
